@@ -5,6 +5,7 @@ package main
 // operation of every half connection through the verif hooks (validated by HalfConnTrace).
 
 import (
+	"bytes"
 	"bufio"
 	"encoding/json"
 	"fmt"
@@ -12,6 +13,7 @@ import (
 	"os"
 	"strconv"
 	"strings"
+	"sync/atomic"
 	"sync"
 	"time"
 
@@ -247,9 +249,9 @@ func runSchedule(s *schedule) (obs c07Obs, err error) {
 	obs.ID = s.ID
 	suite := uint16(s.Suite)
 	ht.reset(map[string]interface{}{"id": s.ID})
-	gmPairShortRand = s.ShortRand
+	gmPairShortRand, gmPairTorn = s.ShortRand, s.Plan == "wtimeout"
 	cli, srv, m, err := gmPair(suite)
-	gmPairShortRand = false
+	gmPairShortRand, gmPairTorn = false, false
 	if err != nil {
 		return obs, err
 	}
@@ -287,6 +289,48 @@ func runSchedule(s *schedule) (obs c07Obs, err error) {
 			return obs, perr
 		}
 		gmtls.VerifSetSeq(snd, rcv, v)
+	}
+	if s.Plan == "wtimeout" {
+		// One record goes out whole; the transport cuts the next one short and reports an expired write deadline; the
+		// application lifts the deadline and writes twice more.  Whatever the sender does then (the connection may be
+		// unusable for sending: the record layer is corrupt), it never seals a record under a sequence number / nonce it has
+		// used - the hook trace is judged by HalfConnTrace - and the receiver delivers nothing but the first payload.
+		tc := gmPairTornConns[0]
+		if s.Dir == "s2c" {
+			tc = gmPairTornConns[1]
+		}
+		var gotMu sync.Mutex
+		var got []byte
+		go func() {
+			b := make([]byte, 4096)
+			for {
+				n, e := rcv.Read(b)
+				gotMu.Lock()
+				got = append(got, b[:n]...)
+				gotMu.Unlock()
+				if e != nil {
+					return
+				}
+			}
+		}()
+		_, e1 := snd.Write([]byte("first payload"))
+		atomic.StoreInt32(&tc.armed, 1)
+		_, e2 := snd.Write(bytes.Repeat([]byte("second payload "), 8))
+		snd.SetWriteDeadline(time.Time{})
+		_, e3 := snd.Write([]byte("third payload, after the deadline was lifted"))
+		_, e4 := snd.Write([]byte("fourth payload"))
+		time.Sleep(30 * time.Millisecond)
+		if e1 != nil || e2 == nil || atomic.LoadInt32(&tc.torn) != 1 {
+			return obs, fmt.Errorf("wtimeout: first write %v, torn write %v, %d writes torn", e1, e2, tc.torn)
+		}
+		gotMu.Lock()
+		if !strings.HasPrefix("first payload", string(got)) {
+			obs.ExtraBytes = len(got)
+		}
+		gotMu.Unlock()
+		obs.Delivered, obs.BytesOK, obs.ErrClass = 1, obs.ExtraBytes == 0, "eof"
+		obs.ErrText = fmt.Sprintf("after the torn record: third Write %v, fourth Write %v, %d transport writes", e3, e4, atomic.LoadInt32(&tc.after))
+		return obs, nil
 	}
 	writes, recs := c07Plan(suite, s.Plan)
 	d.mu.Lock()
